@@ -253,6 +253,12 @@ harness_fn!(r_nul, "nul", m_nul);
 harness_fn!(r_fb, "fb", m_id);
 harness_fn!(r_fa, "fa", m_id);
 harness_fn!(r_fade, "fade", m_id);
+harness_fn!(r_idxi, "idxi", m_id);
+harness_fn!(r_idmi, "idmi", m_id);
+harness_fn!(r_idms, "idms", m_id);
+harness_fn!(r_idxxi, "idxxi", m_id);
+harness_fn!(r_idmxi, "idmxi", m_id);
+harness_fn!(r_idxmi, "idxmi", m_id);
 
 pub fn fn_spec(name: &str) -> FnSpec {
     use Kind::*;
@@ -296,6 +302,13 @@ pub fn fn_spec(name: &str) -> FnSpec {
         "fb" => f("fb", vec![(Field, Ty::Bool)], vec![], Ty::Bool, m_id, r_fb),
         "fa" => f("fa", vec![(Field, Ty::arr(Ty::Bool))], vec![], Ty::arr(Ty::Bool), m_id, r_fa),
         "fade" => f("fade", vec![(Field, Ty::Bool)], vec![], Ty::Bool, m_id, r_fade),
+        // identities on container types: a function result that is indexed like a field (C02)
+        "idxi" => f("idxi", vec![(Field, Ty::arr(Ty::Int))], vec![], Ty::arr(Ty::Int), m_id, r_idxi),
+        "idmi" => f("idmi", vec![(Field, Ty::map(Ty::Int))], vec![], Ty::map(Ty::Int), m_id, r_idmi),
+        "idms" => f("idms", vec![(Field, Ty::map(Ty::Bytes))], vec![], Ty::map(Ty::Bytes), m_id, r_idms),
+        "idxxi" => f("idxxi", vec![(Field, Ty::arr(Ty::arr(Ty::Int)))], vec![], Ty::arr(Ty::arr(Ty::Int)), m_id, r_idxxi),
+        "idmxi" => f("idmxi", vec![(Field, Ty::map(Ty::arr(Ty::Int)))], vec![], Ty::map(Ty::arr(Ty::Int)), m_id, r_idmxi),
+        "idxmi" => f("idxmi", vec![(Field, Ty::arr(Ty::map(Ty::Int)))], vec![], Ty::arr(Ty::map(Ty::Int)), m_id, r_idxmi),
         "racy" => f("racy", vec![(Field, Ty::Bytes)], vec![], Ty::Int, m_racy, r_racy),
         "concat" => FnSpec {
             name: "concat",
